@@ -5,7 +5,7 @@ import json, os, re, shutil, sys
 pid, x, caught, missed, remarks = sys.argv[1:6]
 rnd = os.environ.get("ROUND", "1")
 src = "/tmp/seed-%s" % pid if rnd == "1" else "/tmp/seed%s-%s" % (rnd, pid)
-name = x if rnd == "1" else {"A": "C", "B": "D"}[x] if rnd == "2" else {"A": "E", "B": "F"}[x] if rnd == "3" else {"A": "G", "B": "H"}[x] if rnd == "4" else {"A": "I", "B": "J"}[x]
+name = x if rnd == "1" else {"A": "C", "B": "D"}[x] if rnd == "2" else {"A": "E", "B": "F"}[x] if rnd == "3" else {"A": "G", "B": "H"}[x] if rnd == "4" else {"A": "I", "B": "J"}[x] if rnd == "5" else {"A": "K", "B": "L"}[x]
 dst = os.path.join(os.path.dirname(os.path.dirname(os.path.abspath(__file__))), "seeded", "%s-%s" % (pid, name))
 os.makedirs(dst, exist_ok=True)
 shutil.copy(os.path.join(src, "%s.diff" % x), os.path.join(dst, "patch.diff"))
